@@ -172,7 +172,7 @@ def from_tlc(c, g, rnd):
                      "sched": [[1, k] for k in s["sched"]]})
     total = len(scns)
     scns.sort(key=lambda x: json.dumps(x, sort_keys=True))
-    limit = 12000 if c.thorough else 1200
+    limit = 12000 if c.thorough else 600
     if len(scns) > limit:
         scns = rnd.sample(scns, limit)
     return scns, total
@@ -189,7 +189,8 @@ def run(c):
     drv, _, _, g = _gw.side_by_side(
         lambda: c.build("sig"),
         lambda: c.mc("SigFraming", "SigFramingMC.%s.cfg" % c.tier, workers=4, timeout=3000),
-        lambda: c.mc("SigFraming", "SigFramingMC.lossless.cfg", workers=2, timeout=3000),
+        lambda: c.mc("SigFraming", "SigFramingMC.lossless.cfg" if c.thorough else "SigFramingMC.lossless-quick.cfg",
+                     workers=2, timeout=3000),
         lambda: _gw.generator(c, "SigFramingGen", "SigFramingGen.%s.cfg" % c.tier),
         c=c, names=("build", "mc-faulty", "mc-lossless", "gen"))
     if c.thorough:
